@@ -50,9 +50,11 @@ def families(tier):
 
 
 PLACEMENTS = ['same-level', 'nested-in-itself', 'sibling-catches', 'first-failed', 'hidden-in-cached-subtree', 'sb-catches-then-first',
-              'hidden-bf-holder-first', 'hidden-sb-holder-first', 'hidden-bf-dup-first']
+              'hidden-bf-holder-first', 'hidden-sb-holder-first', 'hidden-bf-dup-first', 'hidden-below-raised-holder-first',
+              'hidden-below-raised-dup-first']
 # placements whose first build runs only the holder (so that later builds reuse its cached subtree): index of the holder
-HOLDER_ONLY_FIRST = {'hidden-in-cached-subtree': 1, 'hidden-bf-holder-first': 0, 'hidden-sb-holder-first': 0, 'hidden-bf-dup-first': 1}
+HOLDER_ONLY_FIRST = {'hidden-in-cached-subtree': 1, 'hidden-bf-holder-first': 0, 'hidden-sb-holder-first': 0, 'hidden-bf-dup-first': 1,
+                     'hidden-below-raised-holder-first': 0, 'hidden-below-raised-dup-first': 1}
 H = 'o/h'
 
 
@@ -76,6 +78,12 @@ def seq_program(eng):
         return pl, [('BF', H, {'mode': 'ok', 'catch': True, 'name': 'holder'}, [('BF', T, {'mode': 'ok', 'name': 'inner'}, [])]), dup]
     if pl == 'hidden-sb-holder-first':
         return pl, [('SB', 'a', {'catch': True}, [('BF', T, {'mode': 'ok', 'name': 'inner'}, [])]), dup]
+    if pl.startswith('hidden-below-raised'):
+        # the cached holder caught a failing build_file whose function had built T before it raised
+        holder = ('SB', 'a', {'catch': True}, [('BF', H, {'mode': 'raise_after', 'catch': True, 'name': 'failing'},
+                                                [('BF', T, {'mode': 'ok', 'name': 'inner'}, [])])])
+        first = ('BF', T, {'mode': m, 'catch': True, 'name': 'root-first'}, [])
+        return pl, ([holder, dup] if pl.endswith('holder-first') else [first, holder])
     if pl == 'hidden-bf-dup-first':
         return pl, [('BF', T, {'mode': m, 'catch': True, 'name': 'root-first'}, []),
                     ('BF', H, {'mode': 'ok', 'catch': True, 'name': 'holder'}, [('BF', T, {'mode': 'ok', 'name': 'inner'}, [])])]
